@@ -28,7 +28,7 @@ Alts == {X, YZ, E, U, UU, WS, N, B, LT,
          TrStk("AND", <<>>), TrStk("BASIC", <<X>>), [TrStk("OR", <<>>) EXCEPT !.paren = TRUE],
          TrStk("NOT", <<X>>), TrStk("NOT", <<>>), [TrStk("NOT", <<X, Y>>) EXCEPT !.fold = TRUE],
          [TrStk("NOT", <<X>>) EXCEPT !.sym = <<"!">>], [TrStk("OR", <<X, Y>>) EXCEPT !.paren = TRUE],
-         KV, KGeS, KNoOp, KNoEx, [KV EXCEPT !.paren = TRUE, !.enc = <<<<QT>>>>], [KV EXCEPT !.nspad = TRUE]}
+         KV, KGeS, KNoOp, KNoEx, KBadOp, [KV EXCEPT !.paren = TRUE, !.enc = <<<<QT>>>>], [KV EXCEPT !.nspad = TRUE]}
 
 RootVariants(k) ==
   {TrStk(k, <<>>), [TrStk(k, <<>>) EXCEPT !.nspad = TRUE], [TrStk(k, <<>>) EXCEPT !.lonce = TRUE],
